@@ -148,8 +148,8 @@ def _eq(a, b):
          prop_clauses={'C13': ['stops_when_asked', 'no_self_overlap', 'idle_respected'],
                        'C20': ['stops_when_asked', 'no_self_overlap'],
                        'C08': ['patch_carried'],
-                       'C03': _SCHEDULE + ['stops_when_asked', 'patch_carried']},
-         clauses=_SCHEDULE + ['stops_when_asked', 'patch_carried'],
+                       'C03': _SCHEDULE + ['stops_when_asked', 'patch_carried', 'permanent_failure_ends_the_timer']},
+         clauses=_SCHEDULE + ['stops_when_asked', 'patch_carried', 'permanent_failure_ends_the_timer'],
          canaries=['canary.never_runs', 'canary.never_woken_from_a_sleep', 'canary.every_run_succeeds', 'canary.never_idles',
                    'canary.nothing_carried'],
          trusted=['execution.execute_handlers_once by contract X2 (here: records the call, lasts the run duration, answers {id: Outcome} of '
@@ -406,8 +406,13 @@ def D5n(vc):
         last = runs[-1]
         if last.get('kind') in ('temporary', 'arbitrary'):
             vc.ensure('after_error_the_delay', False)               # a failed run is retried: the timer does not give up by itself
-        elif I is not None:
+        elif I is not None and last.get('kind') != 'permanent':
             vc.ensure('sharp_grid' if is_sharp else 'next_run_one_interval_after_the_previous_end', False)
+    # C11 / docs/timers.rst: "For kopf.PermanentError, the timer stops forever and is not retried": no run follows one that failed for good
+    for a, b in zip(runs, runs[1:]):
+        vc.ensure('permanent_failure_ends_the_timer', a.get('kind') != 'permanent')
+    if runs and runs[-1].get('kind') == 'permanent' and runs[-1]['end'] is not None and escaped is None and (stop_at is None or stop_at > runs[-1]['end']):
+        vc.ensure('permanent_failure_ends_the_timer', returned_at is not None and _eq(returned_at, runs[-1]['end']))
     if I is not None and not is_sharp and escaped is not None:
         vc.ensure('next_run_one_interval_after_the_previous_end', False)
     if I is not None and is_sharp and escaped is not None:
@@ -442,7 +447,9 @@ def D5n(vc):
             vc.ensure('stops_when_asked', _eq(returned_at, max([stop_at] + in_flight)))
         else:
             # it ended by itself: only a one-shot timer (neither interval nor idle) after a finished run may
-            vc.ensure('stops_when_asked', bool(runs) and runs[-1].get('kind') in ('success', 'permanent') and I is None and idle is None)
+            # ... or any timer after a run that failed for good
+            vc.ensure('stops_when_asked', bool(runs) and (runs[-1].get('kind') == 'permanent'
+                                                          or (runs[-1].get('kind') == 'success' and I is None and idle is None)))
     vc.canary('canary.never_woken_from_a_sleep', not any(s['woken'] for s in sleeps))
 
     # ---- the patch
